@@ -113,6 +113,9 @@ func solveOne(o *Obligation, cfg *SolveConfig) {
 		defer os.Remove(file)
 	}
 	secs := int(cfg.Timeout / time.Second)
+	if o.Budget > 0 {
+		secs = int(o.Budget / time.Second)
+	}
 	if secs < 1 {
 		secs = 1
 	}
